@@ -320,6 +320,13 @@ fn cli_roundtrip(bin: &std::path::Path, case: &Case, text: &str, c1: &Components
         args.push("--load_matching".into());
     }
     let (oc, of) = (dir.join("oc.csv"), dir.join("of.csv"));
+    // the files may exist already with longer content (names reused between runs): saving replaces them
+    if crate::spec::fnv(text.as_bytes()) % 2 == 0 {
+        let filler = "9, CONSUMO, CAL, GASNATURAL, 1.00, 2.00 # resto de un archivo anterior\n".repeat((text.len() * 4 + (1 << 18)) / 64);
+        let _ = std::fs::write(&oc, &filler);
+        let _ = std::fs::write(&of, "GASNATURAL, RED, SUMINISTRO, A, 9.000, 9.000, 9.000 # resto de un archivo anterior\n".repeat(4000));
+        t.count("cli_saves_over_existing_longer_files");
+    }
     let mut a1 = args.clone();
     a1.extend(["--oc".to_string(), oc.display().to_string(), "--of".to_string(), of.display().to_string()]);
     let r1 = cli::run(bin, &a1, 20_000);
